@@ -78,6 +78,17 @@ func c08One(env *Env, m *wvlib.Model, c *C08Case) {
 	for _, f := range ev.NewFiles {
 		total += int64(len(f))
 	}
+	// the same diff against the STORED signature of the old build (second push): nothing may be sent that the
+	// in-memory signature finds
+	if c.Seed%2 == 0 {
+		sf, sr, serr := diffAgainstStored(od, nd)
+		if serr != nil {
+			env.R.Violate("diff-error", "against the stored signature: "+serr.Error(), c)
+		} else if sf != ev.Res.Fresh || sr != ev.Res.Reused {
+			env.R.Violate("stored-signature-finds-less", fmt.Sprintf("diff against the signature read back from its stream: fresh %d reused %d; against the computed signature: fresh %d reused %d", sf, sr, ev.Res.Fresh, ev.Res.Reused), c)
+		}
+		env.R.Count("diffed-against-stored-signature", 1)
+	}
 	if ev.Res.Fresh+ev.Res.Reused != total {
 		env.R.Violate("accounting", fmt.Sprintf("fresh %d + reused %d != size of the new build %d", ev.Res.Fresh, ev.Res.Reused, total), c)
 	}
